@@ -313,6 +313,18 @@ def forms(ctx):
         if fn.startswith(("find", "rfind")) and not ok_drop:
             ctx.violation("TAB-FORM", fn + "|drop", "%s: no loop path drops exactly one byte from the %s" % (fn, end))
         if fn.startswith("trim"):
+            # like Parser::trim_*_matches, the form always writes the parser (a zero-byte skip still sets the parse direction):
+            # every way out of the expansion has gone through the setter
+            meth = "skip" if end == "front" else "skip_back"
+            try:
+                outs = [p for p in sym.through_loops(b, prog) if p.kind == "return"]
+            except sym.TooManyPaths:
+                outs = None
+            if outs is None or not outs:
+                ctx.violation("TAB-FORM", fn + "|always-set", "%s: cannot enumerate the ways out of the trimming loop" % fn)
+            elif any(not any(e[0] == "call" and e[1].endswith("::" + meth) for e in p.events) for p in outs):
+                ctx.violation("TAB-FORM", fn + "|always-set", "%s: some way out of the expansion never calls Parser::%s - a trim that removes nothing would "
+                              "leave the parse direction as it was, unlike Parser::trim_%s_matches" % (fn, meth, "start" if end == "front" else "end"))
             # a back edge requires len(rem) != len(bytes); the empty literal must exit
             bad = [p for p in backs if not any(c[0] in ("ne", "lt") and "len" in repr(c) for c in p.conds)]
             if bad:
